@@ -293,12 +293,12 @@ func (c *Ctx) funcValue(s *State, fn *ssa.Function, binds []Value) Value {
 	c.eng.closures[r.S] = &closureInfo{fn: fn, binds: binds}
 	// record the target in the heap so that it survives being stored / loaded
 	h := c.getHeap(s, "ClosureFn", ArrSort(SInt, SInt))
-	c.setHeap(s, "ClosureFn", Store(h, r, IntLit(int64(c.eng.fnID(fn)))))
+	c.setHeapAt(s, "ClosureFn", Store(h, r, IntLit(int64(c.eng.fnID(fn)))), r)
 	for i, b := range binds {
 		if sc, ok := b.(Sc); ok {
 			name := fmt.Sprintf("Bind|%s#%d", fnKey(fn), i)
 			hb := c.getHeap(s, name, ArrSort(SInt, sc.T.Sort))
-			c.setHeap(s, name, Store(hb, r, sc.T))
+			c.setHeapAt(s, name, Store(hb, r, sc.T), r)
 		}
 	}
 	return Sc{T: r}
@@ -442,7 +442,7 @@ func (c *Ctx) execInstr(s *State, in ssa.Instruction, out *[]retPath) []*State {
 	case *ssa.MakeChan:
 		r := c.newRef(s, "chan")
 		h := c.getHeap(s, "ChanClosed", ArrSort(SInt, SBool))
-		c.setHeap(s, "ChanClosed", Store(h, r, False))
+		c.setHeapAt(s, "ChanClosed", Store(h, r, False), r)
 		c.setVal(s, x, Sc{T: r})
 	case *ssa.MakeClosure:
 		var binds []Value
@@ -506,7 +506,7 @@ func (c *Ctx) zeroElems(s *State, arr Term, et types.Type) {
 		name := "Elem|" + typeKey(et) + cp.Suffix
 		h := c.getHeap(s, name, ArrSort(SInt, ArrSort(SInt, cp.Sort)))
 		z := zeroTerm(cp.Sort, c.d)
-		c.setHeap(s, name, Store(h, arr, Term{fmt.Sprintf("((as const %s) %s)", ArrSort(SInt, cp.Sort), z.S), ArrSort(SInt, cp.Sort)}))
+		c.setHeapAt(s, name, Store(h, arr, Term{fmt.Sprintf("((as const %s) %s)", ArrSort(SInt, cp.Sort), z.S), ArrSort(SInt, cp.Sort)}), arr)
 	}
 }
 
@@ -1186,7 +1186,7 @@ func (c *Ctx) valuesEqual(s *State, a, b Value, t types.Type) Term {
 			if y.T.Sort == SInt && x.T.Sort.IsBV() {
 				return Eq(BV2Int(x.T), y.T)
 			}
-			c.unsupported("== on different sorts")
+			c.unsupported(fmt.Sprintf("== on different sorts: %s:%s vs %s:%s", x.T.S, x.T.Sort, y.T.S, y.T.Sort))
 			return c.freshConst("eq", SBool)
 		}
 		if x.T.Sort == SFlt {
